@@ -1264,7 +1264,15 @@ func (p *balloons) Reconfigure(newCfg interface{}) error {
 		return err
 	}
 	log.Info("config updated successfully")
-	if err := p.Sync(p.cch.GetContainers(), p.cch.GetContainers()); err != nil {
+	ctrs := p.cch.GetContainers()
+	live := []cache.Container{}
+	for _, c := range ctrs {
+		switch c.GetState() {
+		case cache.ContainerStateCreated, cache.ContainerStateRunning:
+			live = append(live, c)
+		}
+	}
+	if err := p.Sync(live, ctrs); err != nil {
 		log.Warnf("failed to sync containers: %v", err)
 	}
 	return nil
